@@ -126,6 +126,11 @@ func c09Group(c *core.Ctx, cs c09Case) {
 			res := drive.Parse(cs.Src, v, true)
 			if !res.OK() {
 				c.Stat("crashed_or_hung(C01 domain)", 1)
+				if i > 0 {
+					// the first version of the group parsed this input: a crash under another one is a difference
+					grp := []string{"5.0-5.6", "7.0-7.2", "7.3-7.4-omitted"}[gi]
+					c.Report("versions of one group: one of them crashes or hangs ("+grp+")", mkWhat("%s parses, %s does not (%s) on %q", verStr(g[0]), verStr(v), panicKey(&res), cs.Src), cs)
+				}
 				break
 			}
 			if i == 0 {
